@@ -173,8 +173,9 @@ def tnet_from( conn, addr,
     with tnet_machine( "tnet_%s" % addr[1] ) as engine:
         eof			= False
         while not ( eof or ( control and control.get( 'done' ))):
-            while ignore and source.peek() and source.peek() in ignore:
+            while ignore and source.peek() is not None and source.peek() in ignore:
                 next( source )
+            between		= source.sent		# 'til a symbol of the next TNET string is consumed, we're between messages
             data		= cpppo.dotdict()
             started		= cpppo.timer()		# When did we start the current attempt at a TNET string?
             for mch,sta in engine.run( source=source, data=data ):
@@ -211,6 +212,10 @@ def tnet_from( conn, addr,
                 if eof:
                     break
                 source.chain( msg )
+                # Symbols to ignore between TNET messages may arrive in a later block than the message they follow
+                while ignore and source.sent == between and source.peek() is not None and source.peek() in ignore:
+                    next( source )
+                    between	= source.sent
 
             # Terminal state, or EOF, or control.done.  Only yield another TNET message if terminal. 
             duration		= cpppo.timer() - started
